@@ -512,6 +512,12 @@ func Main(t *testing.T, prop string, subs ...Sub) {
 		start := time.Now()
 		t.Run(s.Name, func(tt *testing.T) {
 			ctx.T = tt
+			defer func() {
+				if e := recover(); e != nil {
+					// a panic that escaped a sub-check (enumerations call the library directly)
+					ctx.Violation(map[string]any{"panic_in_sub_check": s.Name}, fmt.Sprintf("panic in %s: %v\n%s", s.Name, e, shortStack()))
+				}
+			}()
 			s.gen(ctx)
 		})
 		st.WallS = time.Since(start).Seconds()
